@@ -621,7 +621,8 @@ theorem params_rt_core (f : FFlate) (v : Nat)
     parseFlate f.toDict = effFlate f := by
   have hN : (Gen.filter_FlatePredictorNone : Int) = 1 := by decide
   have hm : maxInt = 9223372036854775807 := by decide
-  unfold validateFlateLZW at hv
+  replace hv := C08fb.validate_base_of_validate hv
+  unfold validateFlateLZWBase at hv
   split at hv; · simp at hv
   rename_i hpv
   have hpv' : predictorValid f.predictor = true := by simpa using hpv
@@ -804,7 +805,8 @@ theorem effFlate_same_coder (f : FFlate) (v : Nat) (hv : f.validate v = true) :
     (effFlate f).pparams = f.pparams := by
   unfold FFlate.validate at hv
   split at hv; · simp at hv
-  unfold validateFlateLZW at hv
+  replace hv := C08fb.validate_base_of_validate hv
+  unfold validateFlateLZWBase at hv
   split at hv; · simp at hv
   have hN : (Gen.filter_FlatePredictorNone : Int) = 1 := by decide
   by_cases hu : usingPredictor f.predictor = true
